@@ -917,3 +917,219 @@ Proof.
   apply (one_swap_coeff nprim pre post b2 b3 nb2 nb3 ws); [exact Hs | exact Hok |]. now rewrite perm_str_length.
 Qed.
 End OfsPlain.
+
+(* ================================================================== exchanges with the Jordan-Wigner rule: whole operator, histories *)
+(* Built on C01's swap_jw_sound (abstract rule phi : (p, q) -> (p', q', c); p = operator of the old second site). *)
+Section OfsJw.
+Variable R : CRing.
+Variable iszero : R -> bool.
+Hypothesis iszero_ok : forall x, iszero x = true -> x = r0 R.
+Add Ring RRjw : (rth R).
+
+(* D' is obtained from D by the rule at depth k (strings latest site first) *)
+Definition jw_rel (phi : nat * nat -> nat * nat * R) (dom : list (nat * nat)) (k : nat) (D D' : den R) : Prop :=
+  forall i w l p' q', List.length w = k ->
+    D' i (w ++ q' :: p' :: l)
+    = SymMpo.lsum R dom (fun pq => if pair_eqb (fst (phi pq)) (p', q') then rmul R (snd (phi pq)) (D i (w ++ fst pq :: snd pq :: l)) else r0 R).
+
+Lemma jw_rel_dnext : forall phi dom k D D' b, jw_rel phi dom k D D' -> jw_rel phi dom (S k) (dnext R D b) (dnext R D' b).
+Proof.
+  intros phi dom k D D' b H i w l p' q' Hw. destruct w as [|x w]; [discriminate|]. cbn [app dnext].
+  injection Hw as Hw.
+  rewrite (lsum_ext R (nth i b []) _
+             (fun e => SymMpo.lsum R dom (fun pq => if pair_eqb (fst (phi pq)) (p', q')
+                                               then rmul R (snd (phi pq)) (rmul R (snd e) (drow R D (w ++ fst pq :: snd pq :: l) x (fst e)))
+                                               else r0 R))).
+  2:{ intros [key f] _. cbn [fst snd]. unfold drow. destruct key as [|a [|o' [|? ?]]];
+      try (rewrite lsum_zero; [ring | intros pq _; destruct (pair_eqb (fst (phi pq)) (p', q')); ring]).
+      destruct (Nat.eqb o' x).
+      - rewrite (H a w l p' q' Hw), <- lsum_scale. apply lsum_ext. intros pq _. destruct (pair_eqb (fst (phi pq)) (p', q')); ring.
+      - rewrite lsum_zero; [ring | intros pq _; destruct (pair_eqb (fst (phi pq)) (p', q')); ring]. }
+  rewrite lsum_swap. apply lsum_ext. intros pq _. destruct (pair_eqb (fst (phi pq)) (p', q')).
+  - now rewrite lsum_scale.
+  - apply lsum_zero. reflexivity.
+Qed.
+
+Lemma jw_rel_dchain : forall phi dom post k D D', jw_rel phi dom k D D' ->
+  jw_rel phi dom (k + List.length post) (dchain R D post) (dchain R D' post).
+Proof.
+  induction post as [|b post IH]; intros k D D' H; cbn [dchain List.length].
+  - now rewrite Nat.add_0_r.
+  - replace (k + S (List.length post))%nat with (S k + List.length post)%nat by lia. apply IH, jw_rel_dnext, H.
+Qed.
+
+Lemma swap_site_jw_length : forall nprim nprim' phi b2 b3 nb2 nb3 ws,
+  swap_site_jw R iszero nprim nprim' phi b2 b3 ws = Some (nb2, nb3) -> List.length nb3 = List.length b3.
+Proof.
+  intros nprim nprim' phi b2 b3 nb2 nb3 ws Hs. unfold swap_site_jw in Hs.
+  destruct (sweep R iszero ws _) as [bsl tf].
+  destruct bsl as [|x1 [|x2 [|[|x3 [|? ?]] [|? ?]]]]; try discriminate.
+  destruct (final_okb R iszero tf && Nat.eqb (List.length x2) (List.length b3))%bool; [|discriminate].
+  destruct (resort R nprim' (List.length b3) 0 x2 x3) as [r|] eqn:Er; [|discriminate].
+  inversion Hs; subst. apply (resort_length R _ _ _ _ _ _ Er).
+Qed.
+
+(* one try_swap_site(swap_jw=True) on the whole operator: the coefficient of the string with p' on the new first and q' on
+   the new second site is the signed sum of the old coefficients of (q on the old first, p on the old second site) over the
+   pairs the rule maps to (p', q') *)
+Theorem swap_jw_mpo_sound : forall nprim nprim' phi pre post b2 b3 nb2 nb3 ws dom,
+  (nprim <= nprim')%nat ->
+  swap_site_jw R iszero nprim nprim' phi b2 b3 ws = Some (nb2, nb3) ->
+  sweep_ok R iszero ws (map (jw_row R phi (nprim' - nprim)) (dedup R iszero (swap_table R nprim b2 b3))) ->
+  NoDup dom -> pairs_in R (swap_table R nprim b2 b3) dom ->
+  forall spre spost p' q', List.length spost = List.length post ->
+    coeff R (pre ++ nb2 :: nb3 :: post) (spre ++ p' :: q' :: spost)
+    = SymMpo.lsum R dom (fun pq => if pair_eqb (fst (phi pq)) (p', q')
+                                   then rmul R (snd (phi pq)) (coeff R (pre ++ b2 :: b3 :: post) (spre ++ snd pq :: fst pq :: spost))
+                                   else r0 R).
+Proof.
+  intros nprim nprim' phi pre post b2 b3 nb2 nb3 ws dom Hle Hs Hok Hnd Hdom spre spost p' q' Hlen.
+  unfold coeff. rewrite !dchain_app. cbn [dchain]. rewrite !rev_app_distr. cbn [rev]. rewrite <- !app_assoc. cbn [app].
+  set (D1 := dchain R (D0 R) pre).
+  assert (H0 : jw_rel phi dom 0 (dnext R (dnext R D1 b2) b3) (dnext R (dnext R D1 nb2) nb3)).
+  { intros i w l p'' q'' Hw. destruct w; [|discriminate]. cbn [app].
+    destruct (Nat.lt_ge_cases i (List.length b3)) as [Hi|Hi].
+    - apply (swap_jw_sound R iszero iszero_ok nprim nprim' phi b2 b3 nb2 nb3 ws dom Hle Hs Hok Hnd Hdom D1 i p'' q'' l Hi).
+    - pose proof (swap_site_jw_length _ _ _ _ _ _ _ _ Hs) as Hl. cbn [dnext]. rewrite !nth_overflow by lia. cbn [SymMpo.lsum].
+      symmetry. apply lsum_zero. intros pq _. destruct (pair_eqb (fst (phi pq)) (p'', q'')); ring. }
+  pose proof (jw_rel_dchain phi dom post 0 _ _ H0) as H1. cbn [Nat.add] in H1.
+  rewrite (H1 0%nat (rev spost) (rev spre) p' q') by (now rewrite rev_length).
+  apply lsum_ext. intros pq _. rewrite !rev_app_distr. cbn [rev]. rewrite <- !app_assoc. reflexivity.
+Qed.
+
+(* the action of one exchange on coefficient functions (strings in site order, position k = new first site) *)
+Definition jw_step_fun (k : nat) (phi : nat * nat -> nat * nat * R) (dom : list (nat * nat)) (c : list nat -> R) : list nat -> R :=
+  fun s => match skipn k s with
+           | p' :: q' :: t => SymMpo.lsum R dom (fun pq => if pair_eqb (fst (phi pq)) (p', q')
+                                                      then rmul R (snd (phi pq)) (c (firstn k s ++ snd pq :: fst pq :: t)) else r0 R)
+           | _ => r0 R
+           end.
+Definition plain_step_fun (k : nat) (c : list nat -> R) : list nat -> R := fun s => c (swap_str k s).
+
+(* histories of successful exchanges, with (jh_jw) or without (jh_plain) the Jordan-Wigner rule, oldest first; the second
+   index is the accumulated action on coefficient functions *)
+Inductive ofs_history : list (bond R) -> ((list nat -> R) -> list nat -> R) -> list (bond R) -> Prop :=
+| jh_nil : forall bs, ofs_history bs (fun c => c) bs
+| jh_plain : forall bs T nprim pre post b2 b3 nb2 nb3 ws,
+    ofs_history bs T (pre ++ b2 :: b3 :: post) ->
+    swap_site R iszero nprim b2 b3 ws = Some (nb2, nb3) ->
+    sweep_ok R iszero ws (dedup R iszero (swap_table R nprim b2 b3)) ->
+    ofs_history bs (fun c => plain_step_fun (List.length pre) (T c)) (pre ++ nb2 :: nb3 :: post)
+| jh_jw : forall bs T nprim nprim' phi dom pre post b2 b3 nb2 nb3 ws,
+    ofs_history bs T (pre ++ b2 :: b3 :: post) ->
+    (nprim <= nprim')%nat ->
+    swap_site_jw R iszero nprim nprim' phi b2 b3 ws = Some (nb2, nb3) ->
+    sweep_ok R iszero ws (map (jw_row R phi (nprim' - nprim)) (dedup R iszero (swap_table R nprim b2 b3))) ->
+    NoDup dom -> pairs_in R (swap_table R nprim b2 b3) dom ->
+    ofs_history bs (fun c => jw_step_fun (List.length pre) phi dom (T c)) (pre ++ nb2 :: nb3 :: post).
+
+Lemma ofs_history_length : forall bs T bs', ofs_history bs T bs' -> List.length bs' = List.length bs.
+Proof. induction 1; [reflexivity| |]; rewrite <- IHofs_history, !app_length; reflexivity. Qed.
+
+Theorem ofs_operator_invariant_proof : forall bs T bs', ofs_history bs T bs' ->
+  forall s, List.length s = List.length bs -> coeff R bs' s = T (coeff R bs) s.
+Proof.
+  induction 1 as [bs | bs T nprim pre post b2 b3 nb2 nb3 ws Hh IH Hs Hok
+                     | bs T nprim nprim' phi dom pre post b2 b3 nb2 nb3 ws Hh IH Hle Hs Hok Hnd Hdom]; intros s Hlen.
+  - reflexivity.
+  - pose proof (ofs_history_length _ _ _ Hh) as HL.
+    unfold plain_step_fun. rewrite <- IH by (now rewrite swap_str_length).
+    apply (one_swap_coeff R iszero iszero_ok nprim pre post b2 b3 nb2 nb3 ws s Hs Hok). now rewrite HL.
+  - pose proof (ofs_history_length _ _ _ Hh) as HL. rewrite app_length in HL. cbn [List.length] in HL.
+    unfold jw_step_fun.
+    assert (Hsk : List.length (skipn (List.length pre) s) = S (S (List.length post))) by (rewrite skipn_length; lia).
+    destruct (skipn (List.length pre) s) as [|p' [|q' t]] eqn:E; cbn [List.length] in Hsk; try lia.
+    rewrite <- (firstn_skipn (List.length pre) s) at 1. rewrite E.
+    rewrite (swap_jw_mpo_sound nprim nprim' phi pre post b2 b3 nb2 nb3 ws dom Hle Hs Hok Hnd Hdom) by lia.
+    apply lsum_ext. intros pq _. destruct (pair_eqb (fst (phi pq)) (p', q')); [|reflexivity]. f_equal.
+    apply IH. rewrite app_length, firstn_length. cbn [List.length]. lia.
+Qed.
+End OfsJw.
+
+(* ================================================================== the generated rule as C01's abstract rule; F conjugation of the two-site block *)
+(* primary operators are interned words: prim (old table), prim' (table after the rule appended its new words) *)
+Definition phi_jw (prim : nat -> jw_word) (intern : jw_word -> nat) (pq : nat * nat) : nat * nat * Z :=
+  match jw_rule (prim (fst pq)) (prim (snd pq)) with
+  | Some (n1, n2, mn) => (intern n1, intern n2, sgn mn)
+  | None => (fst pq, snd pq, 1)
+  end.
+
+(* what the rule has to achieve on a pair: p = operator of the old second site, q = of the old first site *)
+Definition phi_conj_at (prim prim' : nat -> jw_word) (phi : nat * nat -> nat * nat * Z) (pq : nat * nat) : Prop :=
+  scale4 (snd (phi pq)) (kron (den_word (prim' (fst (fst (phi pq))))) (den_word (prim' (snd (fst (phi pq))))))
+  = conjF (kron (den_word (prim (snd pq))) (den_word (prim (fst pq)))).
+
+Theorem phi_jw_conj : forall prim prim' intern pq,
+  rule_word (prim (fst pq)) -> rule_word (prim (snd pq)) -> rule_asserts (prim (fst pq)) (prim (snd pq)) = true ->
+  (forall n1 n2 mn, jw_rule (prim (fst pq)) (prim (snd pq)) = Some (n1, n2, mn) -> prim' (intern n1) = n1 /\ prim' (intern n2) = n2) ->
+  phi_conj_at prim prim' (phi_jw prim intern) pq.
+Proof.
+  intros prim prim' intern pq H1 H2 Has Hint.
+  destruct jw_swap_rule_conj_all_words as [_ H]. destruct (H _ _ H1 H2 Has) as [n1 [n2 [mn [Hr Hc]]]].
+  unfold phi_conj_at, phi_jw. rewrite Hr. cbn [fst snd]. destruct (Hint _ _ _ Hr) as [-> ->]. exact Hc.
+Qed.
+
+Definition sw4 (i : nat) : nat := match i with 1 => 2 | 2 => 1 | _ => i end%nat.
+Definition fsgn (i : nat) : Z := match i with 3%nat => -1 | _ => 1 end.
+
+(* entries of F X F^T and of c X for Kronecker products *)
+Lemma conjF_kron_entry : forall A B i j, (i < 4)%nat -> (j < 4)%nat ->
+  get4 (conjF (kron A B)) i j = fsgn i * fsgn j * get4 (kron A B) (sw4 i) (sw4 j).
+Proof.
+  intros [a0 a1 a2 a3] [b0 b1 b2 b3] i j Hi Hj.
+  do 4 (destruct i as [|i]; [do 4 (destruct j as [|j]; [cbv -[Z.mul Z.add Z.opp Z.sub]; ring|]); lia|]). lia.
+Qed.
+Lemma scale4_kron_entry : forall c A B i j, (i < 4)%nat -> (j < 4)%nat ->
+  get4 (scale4 c (kron A B)) i j = c * get4 (kron A B) i j.
+Proof.
+  intros c [a0 a1 a2 a3] [b0 b1 b2 b3] i j Hi Hj.
+  do 4 (destruct i as [|i]; [do 4 (destruct j as [|j]; [cbv -[Z.mul Z.add Z.opp Z.sub]; ring|]); lia|]). lia.
+Qed.
+
+Lemma sumZ_map_add : forall {A} (f g : A -> Z) l, sumZ (map (fun x => f x + g x) l) = sumZ (map f l) + sumZ (map g l).
+Proof. unfold sumZ. induction l; simpl; [reflexivity|]. rewrite IHl. lia. Qed.
+Lemma sumZ_zero : forall {A} (f : A -> Z) l, (forall x, In x l -> f x = 0) -> sumZ (map f l) = 0.
+Proof. unfold sumZ. induction l; intros H; simpl; [reflexivity|]. rewrite IHl by (intros; apply H; right; assumption). rewrite (H a) by (left; reflexivity). reflexivity. Qed.
+Lemma sumZ_swap : forall {A B} (f : A -> B -> Z) la lb,
+  sumZ (map (fun a => sumZ (map (fun b => f a b) lb)) la) = sumZ (map (fun b => sumZ (map (fun a => f a b) la)) lb).
+Proof.
+  induction la as [|a la IH]; intros lb.
+  - cbn [map]. symmetry. apply sumZ_zero. reflexivity.
+  - cbn [map]. change (sumZ (?x :: ?l)) with (x + sumZ l). rewrite IH, <- sumZ_map_add. reflexivity.
+Qed.
+Lemma sumZ_pick : forall (dom : list (nat * nat)) k (F : nat * nat -> Z), NoDup dom -> In k dom ->
+  sumZ (map (fun x => if pair_eqb k x then F x else 0) dom) = F k.
+Proof.
+  induction dom as [|s dom IH]; intros k F ND Hin; [destruct Hin|]. cbn [map]. change (sumZ (?x :: ?l)) with (x + sumZ l).
+  inversion ND as [|? ? Hn ND']; subst. destruct (pair_eqb_spec k s) as [->|Hne].
+  - rewrite sumZ_zero; [ring|]. intros s' Hs'. destruct (pair_eqb_spec s s') as [->|]; [contradiction|reflexivity].
+  - destruct Hin as [E|Hin]; [congruence|]. rewrite IH by assumption. ring.
+Qed.
+Lemma lsum_Z : forall {A} (l : list A) (f : A -> Z), SymMpo.lsum ZRing l f = sumZ (map f l).
+Proof. induction l; intros; [reflexivity|]. cbn [SymMpo.lsum map]. rewrite IHl. reflexivity. Qed.
+
+(* With the environment strings fixed, let cold q p be the old coefficient (q on the old first site, p on the old second) and
+   cnew p' q' the coefficient jw_step_fun produces.  The two-site operator  sum cnew p' q' . (prim' p' (x) prim' q')  is
+   F ( sum cold q p . (prim q (x) prim p) ) F^T, entry by entry ((F X F^T)_ij = fsgn i fsgn j X_(sw4 i)(sw4 j)). *)
+Theorem jw_block_conj_proof : forall (prim prim' : nat -> jw_word) (phi : nat * nat -> nat * nat * Z) (dom dom' : list (nat * nat)) (cold : nat -> nat -> Z),
+  NoDup dom' -> (forall pq, In pq dom -> In (fst (phi pq)) dom') -> (forall pq, In pq dom -> phi_conj_at prim prim' phi pq) ->
+  forall i j, (i < 4)%nat -> (j < 4)%nat ->
+  sumZ (map (fun x' => sumZ (map (fun pq => if pair_eqb (fst (phi pq)) x' then snd (phi pq) * cold (snd pq) (fst pq) else 0) dom)
+                       * get4 (kron (den_word (prim' (fst x'))) (den_word (prim' (snd x')))) i j) dom')
+  = fsgn i * fsgn j * sumZ (map (fun pq => cold (snd pq) (fst pq) * get4 (kron (den_word (prim (snd pq))) (den_word (prim (fst pq)))) (sw4 i) (sw4 j)) dom).
+Proof.
+  intros prim prim' phi dom dom' cold ND Him Hgood i j Hi Hj.
+  rewrite (sumZ_map_ext _ (fun x' => sumZ (map (fun pq => (if pair_eqb (fst (phi pq)) x' then snd (phi pq) * cold (snd pq) (fst pq) else 0)
+                                              * get4 (kron (den_word (prim' (fst x'))) (den_word (prim' (snd x')))) i j) dom))).
+  2:{ intros x'. rewrite Z.mul_comm, <- sumZ_map_scale. apply sumZ_map_ext. intros; ring. }
+  rewrite sumZ_swap, <- sumZ_map_scale. apply sumZ_map_ext_in. intros pq Hpq.
+  rewrite (sumZ_map_ext _ (fun x' => if pair_eqb (fst (phi pq)) x'
+                                     then snd (phi pq) * cold (snd pq) (fst pq) * get4 (kron (den_word (prim' (fst x'))) (den_word (prim' (snd x')))) i j else 0))
+    by (intros x'; destruct (pair_eqb (fst (phi pq)) x'); ring).
+  rewrite (sumZ_pick dom' (fst (phi pq)) (fun x' => snd (phi pq) * cold (snd pq) (fst pq) * get4 (kron (den_word (prim' (fst x'))) (den_word (prim' (snd x')))) i j) ND (Him pq Hpq)).
+  pose proof (Hgood pq Hpq) as Hg. unfold phi_conj_at in Hg.
+  pose proof (f_equal (fun X => get4 X i j) Hg) as He. cbn beta in He.
+  rewrite scale4_kron_entry, conjF_kron_entry in He by assumption.
+  transitivity (cold (snd pq) (fst pq) * (snd (phi pq) * get4 (kron (den_word (prim' (fst (fst (phi pq))))) (den_word (prim' (snd (fst (phi pq)))))) i j)); [ring|].
+  rewrite He. ring.
+Qed.
